@@ -8,6 +8,7 @@ package vnet
 import (
 	"errors"
 	orig "net"
+	"strconv"
 	"time"
 
 	"github.com/nsqio/nsq/internal/verif/vrt"
@@ -27,7 +28,7 @@ var endpoints = map[string]*Endpoint{}
 var dialSeq int
 
 func Register(addr string, e *Endpoint) { endpoints[addr] = e }
-func Reset()                            { endpoints = map[string]*Endpoint{} }
+func Reset()                            { endpoints = map[string]*Endpoint{}; dialSeq = 0 }
 
 func DialTimeout(network, addr string, timeout time.Duration) (orig.Conn, error) {
 	if e, ok := endpoints[addr]; ok && vrt.Active() {
@@ -35,7 +36,9 @@ func DialTimeout(network, addr string, timeout time.Duration) (orig.Conn, error)
 			return nil, errors.New("dial tcp " + addr + ": connect: connection refused")
 		}
 		dialSeq++
-		s, c := vrt.Pipe("40000", addr)
+		// (every connection has its own source port, as ephemeral ports do: nsqlookupd keys its
+		// peers by the remote address of the connection)
+		s, c := vrt.Pipe(strconv.Itoa(40000+dialSeq), addr)
 		if e.ClientMaxRead != nil {
 			c.MaxRead = e.ClientMaxRead()
 		}
